@@ -17,13 +17,15 @@ META = {
             "caught and reported per case. Held on the cases executed; no claim beyond them.",
     "note": "Trusted: long-double Jacobi of harness/ref.hxx (eigenvalues to ~1e-19 |S|), g++, sanitizer runtimes. long double "
             "instantiations are not judged (the reference has the same precision). Violation keys are "
-            "<solver><N,T>:<stratum>:<class>, class in accuracy|gross|nonfinite|assert|layout2d.",
+            "<solver><N,T>:<stratum>:<class>, class in accuracy|gross (error > 1e-2 |S|)|nonfinite|assert (library assertion)|crash (SIGSEGV inside the call)|layout2d.",
 }
 
 SOLVERS = ["TFEL", "FSESJACOBI", "FSESQL", "FSESCUPPEN", "FSESANALYTICAL", "FSESHYBRID", "GTESYMMETRICQR", "HARARI"]
 STRATA = ["random", "diagonal", "near_diagonal", "tiny_shear", "zero1", "zero2", "zero_tensor", "repeated3", "repeated2",
           "nearrep_g1e-1..1e-3", "nearrep_g1e-3..1e-6", "nearrep_g1e-6..1e-9", "nearrep_g1e-9..1e-12",
           "nearrep_g1e-12..1e-16", "shear_pressure", "scaled", "mixed_scale", "extreme_big", "extreme_small"]
+# the harness recovers from SIGSEGV itself (unbounded recursion in the library): keep the ASan runtime off that signal
+SEGV_ENV = {"ASAN_OPTIONS": vfcore.SAN_ENV["ASAN_OPTIONS"] + ":handle_segv=0"}
 SRC = vfcore.VERIF / "harness/math/c03.cxx"
 
 
@@ -52,13 +54,13 @@ def run(ctx):
     if ctx.replay:
         return replay(ctx, bins)
     # 5 judged quantities (+2 layout checks in 2D) per solver and case; 1/64 of the cases is the zero tensor
-    nd, nf = ctx.n(240000, 6000000), ctx.n(80000, 2000000)
-    ctx.run_events(bins[("asan", "double")], nd, require=require("double", 5 * ctx.n(60, 1500)), keymap=keymap, timeout=3000)
-    ctx.run_events(bins[("asan", "float")], nf, require=require("float", 5 * ctx.n(20, 500)), keymap=keymap, timeout=3000)
+    nd, nf = ctx.n(240000, 1600000), ctx.n(80000, 480000)
+    ctx.run_events(bins[("asan", "double")], nd, require=require("double", 5 * ctx.n(60, 400)), keymap=keymap, timeout=3000, env=SEGV_ENV)
+    ctx.run_events(bins[("asan", "float")], nf, require=require("float", 5 * ctx.n(20, 120)), keymap=keymap, timeout=3000, env=SEGV_ENV)
     if ctx.thorough:
         # what users run: -O2 -DNDEBUG (library assertions compiled out)
-        ctx.run_events(bins[("O2", "double")], 6000000, require=[], timeout=3000,
-                       keymap=keymap)
+        ctx.run_events(bins[("O2", "double")], 1600000, require=[], timeout=3000,
+                       keymap=keymap, env=SEGV_ENV)
     ctx.assumptions += [
         "documented accuracy = Delta_inf columns of docs/web/release-notes-5.0.md (float, double), taken relative to |S|_F",
         "FSESHYBRID::computeEigenValues runs the analytical formula (syevc3): judged with the FSESANALYTICAL figure",
@@ -73,7 +75,7 @@ def replay(ctx, bins):
     e = c.get("event") or {}
     t = (e.get("in") or {}).get("T", "double")
     b = bins[("asan", "float" if t == "float" else "double")]
-    r = vfcore.run([b, "--seed", ctx.seed, "--only", e.get("case", 0), "--tier", ctx.tier], timeout=300, cwd=ctx.work)
+    r = vfcore.run([b, "--seed", ctx.seed, "--only", e.get("case", 0), "--tier", ctx.tier], timeout=300, cwd=ctx.work, env=SEGV_ENV)
     summ = {}
     ctx.fold_events(r, summ, where="replay", keymap=keymap, replay_base=c)
     ctx.merge_summary(summ)
